@@ -88,9 +88,9 @@ CHECKS = {
              'The converse (valid restriction refused) is not claimed. The accepted-but-widening restrictions are listed per (base, derived, witness) in known_findings.jsonl.'),
     'C18': dict(
         technique='stateless exploration of every thread schedule up to a preemption bound (iterative context bounding) on real threads under a controlled scheduler',
-        text='Model checking of the implementation: 2 real threads (3 in one thorough harness) share one schema object; a hand-written scheduler serialises them '
+        text='Model checking of the implementation: 2 real threads (3 in the thorough harness H7) share one schema object; a hand-written scheduler serialises them '
              'with a baton and owns every scheduling decision (sys.settrace call events + cooperative replacements of the library locks). Every schedule with '
-             '<= 1 preemption at ANY xmlschema function call (layer A) and <= 2 preemptions (3 for the small harnesses in thorough) at the shared-state interface '
+             '<= 1 preemption at ANY xmlschema function call (layer A) and <= 2 preemptions at the shared-state interface '
              '(caches, cached properties, build, staged maps, scratch context, identity widening, lock operations) is executed on a fresh schema; each thread result '
              'must equal the single-threaded result, a build race must build every global exactly once, deadlock and divergence are detected. Harnesses: build race, '
              'xsi:type on identity-carrying elements (first two uses of a retyped element raced), scratch-context users, assertion facets (1.1), the selector cache at line granularity, first use of caches/XPath, decode||encode, shared lazy resource.',
